@@ -778,12 +778,26 @@ def random_sequence(sc, rng):
     return seq
 
 
+# verbose patterns: the rendered text is longer than any fixed scratch buffer (130-400 characters), each conversion stays short
+LONG = [
+    ["%A", ", ", "%d", " ", "%B", " ", "%Y", " ", "%H", ":", "%M", ":", "%S", " ", "%Z", " [", "%a", " ", "%b", " ", "%e", "] week ",
+     "%U", "/", "%W", " day ", "%j", " of ", "%G", " at ", "%I", ":", "%M", ":", "%S", " ", "%p", " = ", "%F", "T", "%T", "%z", " = ",
+     "%D", " ", "%R", " UTC", " # ", "%A", " ", "%B", " ", "%d", " ", "%Y", " # ", "%r", " ", "%s", " ", "%y", "%m", "%d"],
+    ["%F", " ", "%T", " ", "%A", " ", "%B", " "] * 9 + ["%Z"],
+]
+
+
 def family_patterns(rng, n_random, kinds_all):
-    """base patterns (curated + seeded random) and their variants with the fractional specifier at every position"""
+    """base patterns (curated + seeded random) and their variants with the fractional specifier at every position; the verbose
+    patterns get the specifier at the start, in the middle and at the end only"""
     bases = [list(p) for p in CURATED] + [random_base_pattern(rng) for _ in range(n_random)]
     out = []
     for k, b in enumerate(bases):
         out += frac_variants(b, kinds_all, rot=k)
+    for k, b in enumerate(LONG):
+        out.append(list(b))
+        for pos in (0, len(b) // 2, len(b)):
+            out.append(b[:pos] + [FRACS[(k + pos) % 3]] + b[pos:])
     return out
 
 
